@@ -133,6 +133,9 @@ func (s *state) handleAction(act *milter.Action) module.CheckResult {
 	case milter.ActContinue:
 		return module.CheckResult{}
 	case milter.ActReplyCode:
+		if !validReplyCode(act) {
+			return s.ioError(fmt.Errorf("milter: invalid reply code %d", act.SMTPCode))
+		}
 		return module.CheckResult{
 			Reject: true,
 			Reason: &exterrors.SMTPError{
@@ -181,6 +184,13 @@ func (s *state) handleAction(act *milter.Action) module.CheckResult {
 		s.log.Msg("unknown action code ignored", "code", act.Code, "milter", s.c.milterUrl)
 		return module.CheckResult{}
 	}
+}
+
+// validReplyCode tells whether a reply code action is a refusal the protocol
+// allows: only 4yz and 5yz are (smfi_setreply), anything else is a protocol
+// error of the milter.
+func validReplyCode(act *milter.Action) bool {
+	return act.Code != milter.ActReplyCode || act.SMTPCode/100 == 4 || act.SMTPCode/100 == 5
 }
 
 // apply applies the modification actions returned by milter to the check results object.
@@ -428,6 +438,11 @@ func (s *state) CheckBody(ctx context.Context, header textproto.Header, body buf
 		}
 	}
 
+	if !validReplyCode(act) {
+		// Protocol error: as for any other I/O error, the modification
+		// actions received so far are not applied.
+		return s.ioError(fmt.Errorf("milter: invalid reply code %d", act.SMTPCode))
+	}
 	result := s.handleAction(act)
 	if result.Reject {
 		// The milter refused the message: modification actions sent before
